@@ -259,7 +259,7 @@ def _create_regex(pat: str) -> re.Pattern[str]:
     if backslash_last:
         regex += re.escape("\\")
 
-    return re.compile(regex)
+    return re.compile(regex, re.DOTALL)
 
 
 def match_with_wildcard(name: str, pattern: str | None) -> bool:
